@@ -46,7 +46,7 @@ BagEqRows(exp, o) ==
 \* C10: once Err is set no user callback runs (the harness counts calls of every function it hands in)
 GrouperOps == {"Aggregate", "QFrames"}
 CallsOK(e, Fr, Gr) ==
-  IF e.recv < 0 THEN TRUE
+  IF e.recv < 0 \/ e.conc > 0 THEN TRUE     \* the counter is process-wide: calls of a concurrent batch cannot be attributed
   ELSE IF e.op = "Apply" /\ ~Fr[e.recv + 1].err THEN
        LET exp == ApplySem(Fr[e.recv + 1], e.a.instrs, e.a.tbls)
            rng == ApplyCalls(Fr[e.recv + 1], e.a.instrs, 1, e.a.tbls) IN
